@@ -976,7 +976,9 @@ impl World {
                         return;
                     }
                     Outcome::Ok(_) => {
-                        self.res.viol("C09", "commit-succeeded-although-a-write-failed", format!("step {}", self.step));
+                        // a commit that reports success must be durable, and the reopen comparison below decides that;
+                        // succeeding in spite of a refused write (an internal retry, say) is not itself a violation
+                        self.res.count("commits_succeeded_although_a_write_was_refused", 1);
                     }
                     Outcome::Panic(_) => {}
                 }
